@@ -47,10 +47,12 @@ def configs(tier):
     return out
 
 
-def write(path, tier, only=None):
+def write(path, tier, only=None, shard=None):
     cs = configs(tier)
     if only:
         cs = [c for c in cs if any(o in c for o in only)]
+    if shard:
+        cs = cs[shard[0]::shard[1]]   # round robin: neighbouring configurations (similar cost) go to different shards
     with open(path, "w") as f:
         f.write("----------------------------- MODULE PeerSwapCfgs -----------------------------\n")
         f.write("(* GENERATED (engines/swapfsm_cfgs.py, tier %s): configurations of the design model. *)\n" % tier)
